@@ -757,13 +757,109 @@ def emit_protocol(P):
     out.append('Definition drop_inner_shape_ok : bool := %s.' % b(P['drop_shape']))
     return out
 
+
+# ----------------------------------------------------------------------------
+# pointer plumbing (golden bodies) and ArcUnion's tag-bit expressions
+# ----------------------------------------------------------------------------
+def to_bexpr(e):
+    e = strip(e)
+    while e[0] == 'cast': e = strip(e[1])
+    if e[0] == 'mcall' and e[2] == 'as_ptr':
+        b = strip(e[1])
+        if b[0] == 'field' and b[2] == 'p' and is_path(strip(b[1]), 'self'): return 'BPtr'
+    if e[0] == 'call' and (call_path(e) or '') == 'Arc::into_raw' and len(e[2]) == 1: return 'BPtr'
+    if e[0] == 'lit':
+        try: return '(BLit %d)' % int(e[1].replace('_', ''), 0)
+        except ValueError: return 'BUnknown'
+    if e[0] == 'unary' and e[1] == '!':
+        x = strip(e[2])
+        if x[0] == 'lit':
+            try: return '(BNotLit %d)' % int(x[1].replace('_', ''), 0)
+            except ValueError: return 'BUnknown'
+    if e[0] == 'binary' and e[1] in ('|', '&'):
+        a = to_bexpr(e[2]); b = to_bexpr(e[3])
+        return '(%s %s %s)' % ('BOr' if e[1] == '|' else 'BAnd', a, b)
+    return 'BUnknown'
+
+def extract_pointers(src, facts, notes):
+    import golden_forms
+    PT = dict(forms={}, diffs=[])
+    for g, lst in golden_forms.GOLDEN.items():
+        ok = True
+        for f, q, txt in lst:
+            r = src.find_fns(f, q)
+            if len(r) != 1 or toks_text(r[0][2].body) != txt:
+                ok = False; PT['diffs'].append('%s:%s' % (f, q))
+        PT['forms'][g] = ok
+    U = dict(tag1='BUnknown', tag2='BUnknown', test_first='BTUnknown', untag1='BUnknown', untag2='BUnknown', arms_ok=False)
+    def tail_call_arg(file, q, callee):
+        r = src.find_fn(file, q)
+        if not r: return None
+        body = fn_body(r[2]); t = body[2]
+        if t is None: return None
+        t = strip(t)
+        if t[0] == 'unsafe': t = strip(t[1][2]) if t[1][2] is not None else None
+        if t is not None and t[0] == 'call' and (call_path(t) or '') == callee and len(t[2]) == 1:
+            return t[2][0]
+        return None
+    try:
+        a = tail_call_arg('arc_union.rs', 'ArcUnion::from_first', 'Self::new')
+        if a is not None: U['tag1'] = to_bexpr(a)
+        a = tail_call_arg('arc_union.rs', 'ArcUnion::from_second', 'Self::new')
+        if a is not None: U['tag2'] = to_bexpr(a)
+        r = src.find_fn('arc_union.rs', 'ArcUnion::is_first')
+        if r:
+            t = strip(fn_body(r[2])[2])
+            if t[0] == 'binary' and t[1] == '==' and strip(t[3])[0] == 'lit':
+                U['test_first'] = '(BEq %s %d)' % (to_bexpr(t[2]), int(strip(t[3])[1], 0))
+        r = src.find_fn('arc_union.rs', 'ArcUnion::borrow')
+        if r:
+            body = fn_body(r[2]); t = strip(body[2]) if body[2] is not None else None
+            if t is not None and t[0] == 'if' and t[3] is not None:
+                c = strip(t[1])
+                cond_ok = c[0] == 'mcall' and c[2] == 'is_first' and is_path(strip(c[1]), 'self')
+                def arm(b, variant):
+                    env = collect_lets(b); res = 'BUnknown'; ok = False
+                    if 'ptr' in env: res = to_bexpr(env['ptr'])
+                    tl = strip(b[2]) if b[2] is not None else None
+                    if tl is not None and tl[0] == 'call' and (call_path(tl) or '') == 'ArcUnionBorrow::' + variant:
+                        br = env.get('borrow')
+                        if br is not None:
+                            x = strip(br)
+                            if x[0] == 'unsafe': x = strip(x[1][2])
+                            ok = x[0] == 'call' and (call_path(x) or '') == 'ArcBorrow::from_ptr' and len(x[2]) == 1 and is_path(strip(x[2][0]), 'ptr')
+                    return res, ok
+                els = t[3]
+                if els[0] != 'block': els = strip(els)
+                e1, ok1 = arm(t[2], 'First'); e2, ok2 = arm(els, 'Second')
+                if cond_ok:
+                    U['untag1'] = e1; U['untag2'] = e2; U['arms_ok'] = ok1 and ok2
+    except (ParseError, IndexError, TypeError) as ex:
+        notes.append('pointers: arc_union.rs: %s' % ex)
+    PT['union'] = U
+    facts['pointers'] = PT
+
+def emit_pointers(PT):
+    b = lambda x: 'true' if x else 'false'
+    out = ['(* --- pointer plumbing (compared with the bodies the model was written against) and ArcUnion tag arithmetic --- *)']
+    for g in ['arc_raw', 'offset', 'borrow', 'thin', 'union', 'swap']:
+        out.append('Definition %s_forms_ok : bool := %s.' % (g, b(PT['forms'].get(g))))
+    U = PT['union']
+    out.append('Definition union_tag1 : bexpr := %s.' % U['tag1'])
+    out.append('Definition union_tag2 : bexpr := %s.' % U['tag2'])
+    out.append('Definition union_test_first : btest := %s.' % U['test_first'])
+    out.append('Definition union_untag1 : bexpr := %s.' % U['untag1'])
+    out.append('Definition union_untag2 : bexpr := %s.' % U['untag2'])
+    out.append('Definition union_borrow_arms_ok : bool := %s.' % b(U['arms_ok']))
+    return out
+
 # ----------------------------------------------------------------------------
 # driver
 # ----------------------------------------------------------------------------
 HEADER = '''(* GENERATED by tools/extract.py from %s -- do not edit.
    source digest: %s *)
 From Coq Require Import NArith List String.
-From TV Require Import Layout SrcFacts Conc.
+From TV Require Import Layout SrcFacts Bits Conc.
 Import ListNotations.
 Open Scope N_scope.
 '''
@@ -775,6 +871,7 @@ def run(srcdir):
     extract_structs(src, facts, notes)
     extract_atomics(src, facts, notes)
     extract_protocol(src, facts, notes)
+    extract_pointers(src, facts, notes)
     facts['notes'] = notes
     h = hashlib.sha256()
     for f in sorted(os.listdir(srcdir)):
@@ -786,6 +883,7 @@ def run(srcdir):
     lines += emit_structs(facts['structs']); lines.append('')
     lines += emit_atomics(facts['atomics']); lines.append('')
     lines += emit_protocol(facts['protocol']); lines.append('')
+    lines += emit_pointers(facts['pointers']); lines.append('')
     return facts, '\n'.join(lines) + '\n'
 
 def jsonable(x):
